@@ -157,6 +157,12 @@ func RunC04(st *simcore.Stream, tier_, leg string, logOn bool, res *simcore.Resu
 					case 0: // wrong identity: the transport address of `to`, the identity of somebody else
 						good := ep.AddrOf(to)
 						at := strings.LastIndex(good, "@")
+						if at < 0 {
+							// addresses of this stack carry no identity: nothing to get wrong
+							w.TellOnce(ctx, ep, to, 0, n)
+							cf()
+							continue
+						}
 						other := st.Intn(p.N)
 						var id string
 						if other == to || st.Bool(1, 3) {
